@@ -27,6 +27,7 @@ THEOREMS = ["JanetModel.Props.C03." + t for t in (
     "compare_antisymm", "compare_trans", "compare_lt_of_lt_of_le", "compare_lt_of_le_of_lt", "compare_total", "compare_total_order",
     "compare_eq_zero_iff_equals", "compare_congr", "lt_le_gt_ge_agree",
     "tuple_by_content", "struct_by_slots", "ref_by_identity", "symbol_identity_iff_bytes",
+    "struct_put_capacity", "struct_layout_canonical_partial",
 )]
 ENV = dict(os.environ, ASAN_OPTIONS="detect_leaks=0:abort_on_error=0", UBSAN_OPTIONS="print_stacktrace=1")
 HARNESS_SRC = os.path.join(VERIF, "harness/C03/pool.c")
@@ -422,13 +423,14 @@ def run(ctx, scripts=None):
         if l.startswith("summary symcache"):
             t = l.split(" ")
             sym_summary = dict(zip(t[2::2], t[3::2]))
-    if rc != 0 or sym_summary is None:
+    if symlaws:
+        direct.append("symcache")
+        ctx.violation("law:" + symlaws[0].split(" ")[1], {"kind": "symcache", "laws": symlaws[:20], "args": ["symcache", rounds, per], "seed": ctx.seed,
+                                                          "rc": rc, "stderr": err.decode(errors="replace")[-1500:]},
+                      what="symbol cache: %s%s" % (symlaws[0], "" if rc == 0 else " (then the harness crashed, rc=%s)" % rc))
+    elif rc != 0 or sym_summary is None:
         ctx.violation("symcache-crash", {"kind": "crash", "rc": rc, "stderr": err.decode(errors="replace")[-2000:], "stdout": out[-1000:]},
                       what="symbol cache scenario crashed (rc=%s)" % rc)
-    elif symlaws:
-        direct.append("symcache")
-        ctx.violation("law:" + symlaws[0].split(" ")[1], {"kind": "symcache", "laws": symlaws[:20], "args": ["symcache", rounds, per], "seed": ctx.seed},
-                      what="symbol cache: %s" % symlaws[0])
     # ------------------------------------------------------------------ verdict for broken obligations
     if broken and not direct and ctx.nviol == 0:
         ctx.violation("broken:" + broken[0][:80], {"kind": "broken-obligation", "broken": broken, "first_diffs": diffs_all[:5]}, found=False,
